@@ -68,12 +68,6 @@ Definition lt_opt (n : nat) (hi : option nat) : bool :=   (* hi.map_or(true, |h|
 Definition ge_opt (n : nat) (hi : option nat) : bool :=   (* hi.map_or(false, |h| n >= h) *)
   match hi with None => false | Some h => h <=? n end.
 
-Fixpoint position {A} (p : A -> bool) (l : list A) : option nat :=
-  match l with
-  | [] => None
-  | x :: r => if p x then Some 0 else option_map S (position p r)
-  end.
-
 Fixpoint disjoint_kinds (a b : list kind) : bool :=
   match a with [] => true | k :: r => negb (kind_in k b) && disjoint_kinds r b end.
 
